@@ -405,12 +405,12 @@ def dial_case(rng):
         ops.append(f"dialaddr 1 0 {kind}")
     else:
         ops.append("dial 1 0")
-    ops += ["settle", "events 1", "events 0"]
+    ops += ["settle 600", "events 1", "events 0"]
     # a second attempt: the peer must be dialable again / already connected
     ops.append(rng.choice(["dial 1 0", "dialaddr 1 0 l0", "dialaddr 1 0 r0", "dialaddr 1 0 x", "dial 0 1", "dialaddr 0 1 r0"]))
-    ops += ["settle", "events 1", "events 0"]
+    ops += ["settle 600", "events 1", "events 0"]
     if rng.random() < 0.4:
-        ops += [rng.choice(["dial 1 0", "dialaddr 1 0 x", "dialaddr 1 0 r0"]), "settle", "events 1", "events 0"]
+        ops += [rng.choice(["dial 1 0", "dialaddr 1 0 x", "dialaddr 1 0 r0"]), "settle 600", "events 1", "events 0"]
     return ops
 
 
@@ -780,13 +780,15 @@ class Trace:
         for i in range(self.n):
             yield i, self.case[i].split(), self.out[i]
 
-    def final_events_index(self, node, after):
-        """Index of an `events <node>` op that follows a `settle`/`wait` which follows op `after`, or None."""
+    def final_events_index(self, node, after, quiet_ms=0):
+        """Index of an `events <node>` op that follows a `settle`/`wait` (of at least `quiet_ms`) which follows op `after`,
+        or None."""
         quiet = False
         for i in range(after + 1, self.n):
             t = self.case[i].split()
             if t[0] in ("settle", "wait") and self.out[i] == "ok":
-                quiet = True
+                ms = int(t[1]) if len(t) == 2 and t[1].isdigit() else 350
+                quiet = quiet or ms >= quiet_ms
             if quiet and t[0] == "events" and t[1:] == [str(node)]:
                 return i
         return None
@@ -807,7 +809,7 @@ def oracle_c05(case, out):
     for n, (i, node, target, kind) in enumerate(dials):
         # window: up to the next dial between this pair (a later dial has its own outcome)
         nxt = min([d[0] for d in dials[n + 1:] if {d[1], d[2]} == {node, target}] or [tr.n])
-        fin = tr.final_events_index(node, i)
+        fin = tr.final_events_index(node, i, quiet_ms=500)
         clean = flushed.get(node, True)
         flushed[node] = clean and fin is not None and fin < min([d[0] for d in dials[n + 1:] if d[1] == node] or [tr.n])
         if fin is None or fin >= nxt or not clean:
@@ -984,7 +986,7 @@ def oracle_c08(case, out):
     return bad
 
 
-KA_EARLY_TOL = 120      # ms: the two ends start their clocks at slightly different moments
+KA_EARLY_TOL = 250      # ms: the two ends start their clocks at slightly different moments (Driver/Node.lean: skewMs)
 KA_LATE = 1500          # ms: generous upper bound on loopback
 
 
@@ -1320,7 +1322,7 @@ TRUSTED_NODE = ("node area: real nodes built through ConfigBuilder/Litep2p::new 
                 "checks/node.py, Model/Node/Wiring.lean, Driver/Node.lean); the registration record is read through guarded "
                 "read accessors (manager fields, ConnectionLimits::verif_config) and a thread-local log written by "
                 "TransportService::new from the constructed value; dynamic operations run in real time (quiescence = no event "
-                "for 250 ms), durations are judged with slack (idle close: not earlier than the configured timeout minus 120 ms "
+                "for 350 ms; 600 ms where the absence of a dial outcome is judged), durations are judged with slack (idle close: not earlier than the configured timeout minus 250 ms "
                 "establishment skew, not later than +1.5 s)")
 ASSUME_NODE = ("node area: loopback addresses 127.0.0.1-127.0.0.4 are usable and port 1 is closed; a wiring defect that only shows "
                "with transports other than TCP, with mDNS or with the system DNS configuration is outside (default feature set)")
